@@ -121,8 +121,8 @@ STAGES = {
     "sub": (lambda t, p: etl.sub(t, 3, "x", "y") if p < 0 else etl.convert(t, 0, str), 3),
     # a dict column in which dicts are rare: the key sample is a sample of ROWS (samplesize=2), not of dict-bearing rows
     # (unpackdict wants the field by name: the stage reads the header - not a data row - to learn it)
-    "unpackdict_sparse": (lambda t, p: (lambda nm: etl.unpackdict(etl.convert(t, nm, lambda v: {"p": v} if v == "a" else None), nm,
-                                                                  samplesize=2))(etl.header(t)[1]), 3),
+    "unpackdict_sparse": (lambda t, p: (lambda nm: etl.addfield(etl.unpackdict(etl.convert(t, nm, lambda v: {"p": v} if v == "a" else None),
+                                                                               nm, samplesize=2), "u%d" % p, None))(etl.header(t)[1]), 3),
     "unpack": (lambda t, p: etl.unpack(etl.convert(t, 1, lambda v: [v, v]), 1, ["p%d" % p, "q%d" % p]), 3),
     # pass-through views that write to a sink while rows flow: releasing a partially consumed iterator must not drain the
     # source either (the pull counter is read after the iterator has been released)
@@ -211,6 +211,15 @@ def check_stream(case, ctx):
     if len(out2) < k + 1:
         ctx.label("short-output")  # fewer than k rows exist even in the long source: nothing to compare
         return None
+    if k >= 1:
+        # the same k data rows come out of an EMPTY source: they stem from a table appended behind the source (cat / stack
+        # after a filter that nothing of the source passes) and can only be delivered once the source is exhausted
+        try:
+            if _take(factory, hdr, block, 0, k)[0] == out2:
+                ctx.label("rows-from-behind-the-source")
+                return None
+        except Exception:
+            pass
     # need(k): shortest source prefix that DETERMINES the first k+1 items: the same items come out whether the source ends
     # there or continues with different rows (so rows that an operator can only emit once its input is exhausted - the
     # second table of cat/stack, the tail of annex - count as needing the whole source)
